@@ -2,6 +2,7 @@ package rangeproof
 
 import (
 	"fmt"
+	"math"
 	"strconv"
 
 	"github.com/privacybydesign/gabi/big"
@@ -216,6 +217,11 @@ func newWithParams(index, sign int, a uint, k *big.Int, split SquareSplitter, nS
 	}
 	if sign != 1 && sign != -1 {
 		return nil, ErrUnsupportedSign
+	}
+	if uint64(a) > math.MaxInt64 {
+		// the exponent -a*sign below is an int64: a larger factor would wrap around and the proof
+		// would establish a different statement than the one it reports
+		return nil, errors.New("factor too large")
 	}
 
 	var exp *big.Int
@@ -442,7 +448,13 @@ func (p *Proof) ProvesStatement(sign int, factor uint, bound *big.Int) bool {
 	if sign != 1 && sign != -1 {
 		return false
 	}
+	if bound == nil || p.K == nil {
+		return false
+	}
 	if len(p.Cs) == 3 {
+		if factor > math.MaxUint/4 {
+			return false // factor*4 would wrap around
+		}
 		factor *= 4
 		bound = new(big.Int).Mul(bound, big.NewInt(4))
 		bound.Sub(bound, big.NewInt(2))
